@@ -234,6 +234,8 @@ var asaSpell = [][3]string{
 	{"access-list inside_in extended permit ip ::/0 host 1000::1", "access-list inside_in extended permit ip any6 host 1000::1", "access-list inside_in extended permit ip any6 host 1000::3"},
 	{"access-list inside_in extended permit ip any4 host 10.9.9.1 log informational", "access-list inside_in extended permit ip any4 host 10.9.9.1 log", "access-list inside_in extended permit ip any4 host 10.9.9.1 log 5"},
 	{"access-list inside_in extended permit ip any4 host 10.9.9.1 log warnings", "access-list inside_in extended permit ip any4 host 10.9.9.1 log 4", "access-list inside_in extended permit ip any4 host 10.9.9.1 log 3"},
+	{"access-list inside_in extended permit icmp any4 host 10.9.9.1 40 0 log warnings", "access-list inside_in extended permit icmp any4 host 10.9.9.1 40 0 log 4", "access-list inside_in extended permit icmp any4 host 10.9.9.1 40 0 log 3"},
+	{"access-list inside_in extended permit icmp any4 host 10.9.9.1 40 log warnings", "access-list inside_in extended permit icmp any4 host 10.9.9.1 40 log 4", "access-list inside_in extended permit icmp any4 host 10.9.9.1 41 log 4"},
 	{"access-list inside_in extended permit tcp any4 eq ssh host 10.9.9.1", "access-list inside_in extended permit tcp any4 eq 22 host 10.9.9.1", "access-list inside_in extended permit tcp any4 eq 23 host 10.9.9.1"},
 	{"access-list inside_in extended permit 6 any4 host 10.9.9.1 eq 80", "access-list inside_in extended permit tcp any4 host 10.9.9.1 eq 80", "access-list inside_in extended permit tcp any4 host 10.9.9.1 eq 82"},
 }
